@@ -143,6 +143,8 @@ package executor
 //@   at `append(e.operationContextMutators, p)` requires idx2 > lastC && arg1 == exts[idx2]
 //@   at `append(e.operationContextMutators, p)` ghost lastC = idx2
 //@   loop 2: invariant lastP < idx2 && lastC < idx2
+//@   loop 2: step len(e.operationParameterMutators) == prev(len(e.operationParameterMutators)) + ite(prev(implements(range2[idx2], "graphql.OperationParameterMutator")), 1, 0)
+//@   loop 2: step len(e.operationContextMutators) == prev(len(e.operationContextMutators)) + ite(prev(implements(range2[idx2], "graphql.OperationContextMutator")), 1, 0)
 //@ func processExtensions$1 [C03]
 //@   ensures calls("dyn:next") == 1
 //@ func processExtensions$2 [C03]
